@@ -11,7 +11,7 @@ use std::ffi::c_ulong;
 pub const INFO: CheckInfo = CheckInfo {
     prop: "C07",
     level: "model_checking",
-    rule: "bounded exhaustive enumeration of (configuration x input length x worst-case input pattern): ALL 9450 configurations (level 0..9 x 5 strategies x windowBits 9..15 x memLevel 1..9 x raw/zlib/gzip) x lengths {0..40, 126..130, 254..258, 507..520, 4095..4097} (boundary lengths of the stored-block, pending-buffer and symbol-buffer limits) and the edge configurations x {65535..65537, 200000}; patterns {incompressible (lcg), flat 256-symbol distribution, 9-bit-literals only, alternating incompressible/compressible blocks sized to the symbol buffer}; every string over a 4-symbol alphabet up to length 4 (6); gzip headers {none, extra 0/5/65535, name/comment 0/5/600, hcrc}; preset dictionaries {3, w, 2w}. For each: deflateBound is queried on the configured stream (after header/dictionary were installed), the output buffer is exactly that size with a PROT_NONE page behind it, and ONE deflate(Z_FINISH) call must return Z_STREAM_END with total_out <= bound. compress/compress2/compress_slice into compressBound likewise. distinct_nontrivial = distinct (configuration class, length, slack = bound - size) outcomes; the minimum slack seen is reported.",
+    rule: "bounded exhaustive enumeration of (configuration x input length x worst-case input pattern): ALL 9450 configurations (level 0..9 x 5 strategies x windowBits 9..15 x memLevel 1..9 x raw/zlib/gzip) x lengths {0..40, 126..130, 254..258, 507..520, 4095..4097} (boundary lengths of the stored-block, pending-buffer and symbol-buffer limits) and the edge configurations x {65535..65537, 200000}; patterns {incompressible (lcg), flat 256-symbol distribution, 9-bit-literals only, alternating incompressible/compressible blocks sized to the symbol buffer}; every string over a 4-symbol alphabet up to length 4 (6); gzip headers {none, extra 0/5/65535, name/comment 0/5/600, hcrc}; preset dictionaries {3, w, 2w}. For each: deflateBound is queried on the configured stream (after header/dictionary were installed), the output buffer is exactly that size with a PROT_NONE page behind it, and ONE deflate(Z_FINISH) call must return Z_STREAM_END with total_out <= bound. compress/compress2/compress_slice into compressBound likewise. distinct_nontrivial = distinct (configuration class, length, slack = bound - size) outcomes; the minimum slack seen is reported. Dictionary family: preset dictionaries of 1, 2, 3, 4, 258, w, 2w bytes x 10 levels x n in 0..=40, 100, 300, 5000.",
     assumptions: &["inputs other than the listed worst-case patterns at the listed lengths are not covered; the bound is a claim over all inputs of a length, the patterns are the known worst cases per configuration class"],
     bound_quick: "K-all x 3 patterns x 66 lengths (stride 2 over memLevel/windowBits pairs), edge configs x big lengths",
     bound_thorough: "K-all (9450 configurations) x 4 patterns x every length 0..1100 and 2^k +- 2 up to 64 KiB; tiny strings (4,6) x K-small",
@@ -265,15 +265,17 @@ pub fn run(ctx: &mut Ctx) {
     for wbits in [9, 15] {
         let w = 1usize << wbits;
         for wrap in [Wrap::Raw, Wrap::Zlib] {
-            for level in [0, 1, 4, 6, 9] {
-                for dl in [3usize, w, 2 * w] {
+            for level in 0..=9 {
+                // (dictionary lengths below the minimum match length still make the zlib header carry a dictionary id)
+                for dl in [1usize, 2, 3, 4, 258, w, 2 * w] {
                     let cfg = DCfg { level, strategy: 0, wbits, mem_level: if wbits == 9 { 1 } else { 8 }, wrap };
                     ctx.case(
                         "bound-dictionary",
-                        || format!("cfg[{}] dictionary of {dl} bytes x n in {{0,1,300,5000}}", cfg.desc()),
+                        || format!("cfg[{}] dictionary of {dl} bytes x n in 0..=40, 100, 300, 5000 x {{incompressible, 9-bit literals, related to the dictionary}}", cfg.desc()),
                         |c| {
-                            for n in [0usize, 1, 300, 5000] {
+                            for n in (0usize..=40).chain([100, 300, 5000]) {
                                 one(c, &b, &cfg, &lcg_bytes(6, n), None, Some(&dict_src[..dl]), &format!("n={n}"))?;
+                                one(c, &b, &cfg, &nine_bit(n), None, Some(&dict_src[..dl]), &format!("n={n} ninebit"))?;
                                 one(c, &b, &cfg, &dict_src[100..100 + n], None, Some(&dict_src[..dl]), &format!("n={n} related"))?;
                             }
                             c.validated();
